@@ -161,6 +161,10 @@ type c13Case struct {
 	// Configured: the decorator is assembled by NewBlobAccessFromConfiguration
 	// with the AC creator (batch size is then the code's constant)
 	Configured bool
+	// EmptyInjecting: the CAS handed to the decorator is wrapped in the
+	// empty-blob-injecting decorator, as the configuration code does for every
+	// top-level CAS: digests of size zero are answered by that wrapper
+	EmptyInjecting bool
 
 	CASErrAt   int // index of the CAS call (FindMissing and Get counted together) that fails; -1 never
 	CASErrCode codes.Code
@@ -178,7 +182,7 @@ type c13Case struct {
 
 func (cs *c13Case) String() string {
 	var b strings.Builder
-	fmt.Fprintf(&b, "fn=%v inst=%q batch=%d maxMsg=%d maxTree=%d configured=%v ac=%s", cs.Fn, cs.Inst, cs.Batch, cs.MaxMsg, cs.MaxTree, cs.Configured, c13ACKindNames[cs.ACKind])
+	fmt.Fprintf(&b, "fn=%v inst=%q batch=%d maxMsg=%d maxTree=%d configured=%v emptyInjecting=%v ac=%s", cs.Fn, cs.Inst, cs.Batch, cs.MaxMsg, cs.MaxTree, cs.Configured, cs.EmptyInjecting, c13ACKindNames[cs.ACKind])
 	if cs.ACKind == c13ACReader {
 		fmt.Fprintf(&b, "(cuts=%v errAt=%d)", cs.ACCuts, cs.ACErrAt)
 	}
@@ -573,6 +577,14 @@ func c13Reference(cs *c13Case, ar *remoteexecution.ActionResult) *c13RefInfo {
 			ri.TreeBytes += td.SizeBytes
 		}
 		where := fmt.Sprintf("output_directories[%d] tree %s", i, c13Short(td))
+		if cs.EmptyInjecting && td.SizeBytes == 0 {
+			// served by the wrapper as zero bytes validated against the digest:
+			// the empty Tree if the hash is that of the empty string, else an error
+			if td.Hash != RefHash(cs.Fn, nil) {
+				ri.Problems = append(ri.Problems, c13Problem{"corrupt-tree-accepted", where + ": a zero-size Tree digest whose hash is not that of the empty string"})
+			}
+			continue
+		}
 		o := cs.Trees[k]
 		if o == nil || o.GetAbsent {
 			ri.Problems = append(ri.Problems, c13Problem{"unreadable-tree-accepted", where + ": the CAS has no such object to read"})
@@ -629,17 +641,22 @@ func runC13Case(c *sim.RunCtx, cs *c13Case) *c13CAS {
 		ctx, cancel := context.WithCancel(context.Background())
 		defer cancel()
 		cas.cancel = cancel
+		var casBA blobstore.BlobAccess = cas
+		if cs.EmptyInjecting {
+			casBA = blobstore.NewEmptyBlobInjectingBlobAccess(cas)
+			c.Count("probe_cas_behind_empty_blob_injecting", 1)
+		}
 		var ba blobstore.BlobAccess
 		if cs.Configured {
 			var restore func()
 			ba, _, restore = buildCompositeWith(c, s, sim.NewClock(s),
-				configuration.NewACBlobAccessCreator(&configuration.BlobAccessInfo{BlobAccess: cas, DigestKeyFormat: digest.KeyWithoutInstance}, nil, cs.MaxMsg),
+				configuration.NewACBlobAccessCreator(&configuration.BlobAccessInfo{BlobAccess: casBA, DigestKeyFormat: digest.KeyWithoutInstance}, nil, cs.MaxMsg),
 				labelled(&pb_blobstore.BlobAccessConfiguration{Backend: &pb_blobstore.BlobAccessConfiguration_CompletenessChecking{CompletenessChecking: &pb_blobstore.CompletenessCheckingBlobAccessConfiguration{
 					Backend: labelConfig("ac"), MaximumTotalTreeSizeBytes: cs.MaxTree}}}, "ac"),
 				map[string]configuration.BlobAccessInfo{"ac": {BlobAccess: ac, DigestKeyFormat: digest.KeyWithInstance}})
 			defer restore()
 		} else {
-			ba = completenesschecking.NewCompletenessCheckingBlobAccess(ac, cas, cs.Batch, cs.MaxMsg, cs.MaxTree)
+			ba = completenesschecking.NewCompletenessCheckingBlobAccess(ac, casBA, cs.Batch, cs.MaxMsg, cs.MaxTree)
 		}
 		var b buffer.Buffer
 		if cs.Composite {
@@ -767,6 +784,9 @@ func c13Judge(c *sim.RunCtx, cs *c13Case, cas *c13CAS, ac *c13AC, got *remoteexe
 		for _, r := range ri.Refs {
 			if covered[r.Key] {
 				continue
+			}
+			if cs.EmptyInjecting && strings.HasSuffix(r.Key, "|0") {
+				continue // digests of size zero are reported present by the wrapper itself
 			}
 			switch {
 			case asked[r.Key]:
